@@ -57,7 +57,10 @@ static std::string cond_bits(const ConditionStack& c) {
     return s + "-";
 }
 static std::string obs(const InterpreterEnv& env) {
-    return join_items(env.stack) + "|" + join_items(env.altstack) + "|" + cond_bits(env.vfExec);
+    // stack | alt stack | condition nesting | counted ops : last executed code separator : signature budget left
+    return join_items(env.stack) + "|" + join_items(env.altstack) + "|" + cond_bits(env.vfExec) + "|" +
+        std::to_string(env.nOpCount) + ":" + std::to_string(env.execdata.m_codeseparator_pos) + ":" +
+        (env.execdata.m_validation_weight_left_init ? std::to_string(env.execdata.m_validation_weight_left) : std::string("-"));
 }
 static std::string errname(ScriptError e) {
     return std::to_string((int)e);
@@ -338,6 +341,28 @@ static std::string cmd_txarg(const std::vector<std::string>& a) {
     return o.str();
 }
 
+// TCE <control hex> <program hex> <script hex> : the stepwise taproot commitment check (TaprootCommitmentEnv)
+static std::string cmd_tce(const std::vector<std::string>& a) {
+    valtype control, program, script;
+    unhex(a[1], control); unhex(a[2], program); unhex(a[3], script);
+    if (control.size() < TAPROOT_CONTROL_BASE_SIZE || program.size() != 32) return "PRECONDITION";   // configure_tx_txin gates these before constructing the env
+    uint256 leaf;
+    CScript sc(script.begin(), script.end());
+    TaprootCommitmentEnv tce(control, program, sc, &leaf);
+    std::ostringstream o;
+    o << "leaf=" << HexStr(Span<const unsigned char>(leaf.begin(), 32)) << " ks=" << HexStr(Span<const unsigned char>(tce.m_k.begin(), 32));
+    int steps = 0; std::string res = "?";
+    for (int guard = 0; guard < 200; guard++) {
+        auto st = tce.Iterate();
+        steps++;
+        if (st == TaprootCommitmentEnv::State::Processing || st == TaprootCommitmentEnv::State::Tweaked) { o << "," << HexStr(Span<const unsigned char>(tce.m_k.begin(), 32)); continue; }
+        res = st == TaprootCommitmentEnv::State::Done ? "DONE" : "FAILED";
+        break;
+    }
+    o << " steps=" << steps << " result=" << res << " lines=" << tce.Description().size();
+    return o.str();
+}
+
 // FLAGS <hex of the modification string> : svf_parse_flags(STANDARD, mod) in a child process (it calls exit(1) on rejection)
 static std::string cmd_flags(const std::vector<std::string>& a) {
     valtype raw; unhex(a.size() > 1 ? a[1] : "-", raw);
@@ -413,6 +438,7 @@ static std::string dispatch(const std::string& line) {
         if (a[0] == "RUNV") return cmd_run(a, true);
         if (a[0] == "EXEC") return cmd_exec(a);
         if (a[0] == "FLAGS") return cmd_flags(a);
+        if (a[0] == "TCE") return cmd_tce(a);
         if (a[0] == "TXPARSE") return cmd_txparse(a);
         if (a[0] == "BTCC") return cmd_btcc(a);
         if (a[0] == "VALUE") return cmd_value(a);
